@@ -119,6 +119,23 @@ pub fn record(out: &mut dyn Write, r: &mut ChaCha20Rng, n: usize) {
         }
     }
     emit(out, json!({"k":"reset","build":BUILD}));
+    // non-canonical coordinate strings (uncompressed readers, validated and unchecked)
+    for (i, a) in sc.iter().enumerate().take(6 + n / 10) {
+        let p1 = (g1o * so(a)).into_affine();
+        let p2 = (g2o * so(a)).into_affine();
+        if i != 0 {
+            raw_events(out, "G1", &ser(&p1, false));
+            raw_events(out, "G2", &ser(&p2, false));
+        }
+        if i % 3 == 1 {
+            let gt = Ours::pairing(p1, g2o);
+            raw_events(out, "GT", &ser(&gt.0, false));
+            if let Some((x, _)) = p1.xy() {
+                raw_events(out, "Fp", &ser(x, false));
+            }
+        }
+    }
+    emit(out, json!({"k":"reset","build":BUILD}));
     // pairings: (a, b) and other factorisations of the same product
     let gt_o = Ours::pairing(g1o, g2o);
     let gt_r = Refe::pairing(g1r, g2r);
@@ -323,6 +340,61 @@ pub fn deser_event(out: &mut dyn Write, grp: &str, b: &Vec<u8>) {
         deser_with!(G1, out, grp, b)
     } else {
         deser_with!(G2, out, grp, b)
+    }
+}
+
+/// uncompressed strings in which ONE base-field coordinate is replaced by a non-canonical alias c + p (still 48
+/// bytes), and the canonical string itself, through the validated and the unchecked uncompressed reader of both
+/// engines: same verdicts, same value read back.  grp: "G1" (x || y), "G2" (x.c0 || x.c1 || y.c0 || y.c1), "GT" (12
+/// coefficients), "Fp" (one coefficient).
+pub fn raw_events(out: &mut dyn Write, grp: &str, canon: &[u8]) {
+    use ark_serialize::{Compress, Validate};
+    let ncoef = canon.len() / 48;
+    let mut variants: Vec<(String, Vec<u8>)> = vec![("canonical".into(), canon.to_vec())];
+    for j in 0..ncoef {
+        let c = &canon[48 * j..48 * (j + 1)];
+        // flag bits of the last coefficient are kept out of the addition
+        let mut cc = c.to_vec();
+        let flags = if j == ncoef - 1 { cc[47] & 0xc0 } else { 0 };
+        cc[47] &= 0x3f;
+        let mut al = le_add(&cc, &P_LE);
+        al.resize(48, 0);
+        if al.len() == 48 && al[47] & 0xc0 == 0 {
+            al[47] |= flags;
+            let mut v = canon.to_vec();
+            v[48 * j..48 * (j + 1)].copy_from_slice(&al);
+            variants.push((format!("coef{}+p", j), v));
+        }
+        if j >= 3 && ncoef == 12 {
+            break; // a few coefficients of an Fp12 element are enough
+        }
+    }
+    macro_rules! go {
+        ($TO:ty, $TR:ty) => {{
+            for (what, b) in variants.iter() {
+                let mut ev = json!({"k":"blsraw","grp":grp,"what":what,"b":b});
+                for (vm, tag) in [(Validate::Yes, "v"), (Validate::No, "u")] {
+                    let o = guarded(|| <$TO>::deserialize_with_mode(&b[..], Compress::No, vm).map(|x| ser(&x, false)).ok());
+                    let rr = guarded(|| <$TR>::deserialize_with_mode(&b[..], Compress::No, vm).map(|x| ser(&x, false)).ok());
+                    match (o, rr) {
+                        (Ok(o), Ok(rr)) => {
+                            ev[format!("ours_ok_{}", tag)] = json!(o.is_some());
+                            ev[format!("ref_ok_{}", tag)] = json!(rr.is_some());
+                            ev[format!("ours_re_{}", tag)] = json!(o.unwrap_or_default());
+                            ev[format!("ref_re_{}", tag)] = json!(rr.unwrap_or_default());
+                        }
+                        (Err(p), _) | (_, Err(p)) => ev["panic"] = json!(p),
+                    }
+                }
+                emit(out, ev);
+            }
+        }};
+    }
+    match grp {
+        "G1" => go!(<<Ours as Pairing>::G1 as CurveGroup>::Affine, <<Refe as Pairing>::G1 as CurveGroup>::Affine),
+        "G2" => go!(<<Ours as Pairing>::G2 as CurveGroup>::Affine, <<Refe as Pairing>::G2 as CurveGroup>::Affine),
+        "GT" => go!(<Ours as Pairing>::TargetField, <Refe as Pairing>::TargetField),
+        _ => go!(<Ours as Pairing>::BaseField, <Refe as Pairing>::BaseField),
     }
 }
 
